@@ -654,3 +654,67 @@ pub fn machines_from_strings(v: &[String]) -> Result<Vec<Machine>, String> {
     use std::str::FromStr;
     v.iter().map(|s| Machine::from_str(s).map_err(|e| format!("{:?}", e))).collect()
 }
+
+
+/// A long pseudo-random walk (labelled *sampled*): `steps` calls with batches of 1-3 events, random time steps
+/// and random RNG answers, judged by observer `O` at every call. Returns (calls, engaged calls, failure).
+pub fn random_walk<O: Observer>(ci: usize, cfg: &Cfg, alpha: &Alphabet, o: &Opts, seed: u64, steps: usize) -> (u64, u64, Option<Violation>) {
+    use rand_core::{RngCore, SeedableRng};
+    apply_menu(o);
+    let mut r = rand_xoshiro::Xoshiro256StarStar::seed_from_u64(seed);
+    let ms = Ms(Arc::new(cfg.machines.clone()));
+    let init: Vec<u8> = (0..8).map(|_| (r.next_u32() % 2) as u8).collect();
+    let viol = |ops: &Vec<Op>, init: &Vec<u8>, msg: String, kind: &str| Violation { cfg_index: ci, cfg_label: cfg.label.clone(), init_script: init.clone(), ops: ops.clone(), message: msg, kind: kind.into() };
+    let mut ops: Vec<Op> = vec![];
+    let mut f = match new_fw(cfg, &ms, &init) {
+        Ok(f) => f,
+        Err(e) => return (0, 0, Some(viol(&ops, &init, e, "construction"))),
+    };
+    // the construction may have consumed fewer draws than the script is long; trim for the replay file
+    let init: Vec<u8> = init[..rng::draws().min(init.len())].to_vec();
+    let mut obs = match O::init(cfg, &init, &f) {
+        Ok(x) => x,
+        Err(e) => return (0, 0, Some(viol(&ops, &init, e, "construction"))),
+    };
+    let singles: Vec<&Vec<TriggerEvent>> = alpha.batches.iter().filter(|b| b.len() == 1).collect();
+    let mut t = cfg.start;
+    let (mut calls, mut engaged) = (0u64, 0u64);
+    let mut stats = Stats::default();
+    for _ in 0..steps {
+        let mut batch: Vec<TriggerEvent> = vec![];
+        for _ in 0..(1 + r.next_u32() % 3) {
+            if !singles.is_empty() {
+                batch.extend(singles[(r.next_u32() as usize) % singles.len()].iter().cloned());
+            }
+        }
+        let dl = alpha.deltas[(r.next_u32() as usize) % alpha.deltas.len()];
+        let nt = clock::step(t, dl);
+        // random answers within the smaller of the two menu sizes, so that every answer is in range
+        let ar = o.n32.min(rng_menu64(o).len() as u8).max(1) as u32;
+        let script: Vec<u8> = (0..rng::DRAW_CAP.min(10)).map(|_| (r.next_u32() % ar) as u8).collect();
+        let before = f.verif_snapshot();
+        calls += 1;
+        ops.push(Op { batch: batch.clone(), now: nt, script: script.clone() });
+        let (acts, nd) = match run_call(&mut f, &batch, nt, &script) {
+            Ok(x) => x,
+            Err(e) => {
+                if o.panic_is_violation {
+                    return (calls, engaged, Some(viol(&ops, &init, format!("subject panicked: {e}"), "panic")));
+                }
+                return (calls, engaged, None);
+            }
+        };
+        let after = f.verif_snapshot();
+        let ctx = CallCtx { cfg, batch: &batch, prev_now: t, now: nt, script: &script, draws: nd, actions: &acts, steps: f.verif_steps(), before: &before, after: &after, fw_after: &f };
+        match obs.on_call(&ctx, &mut stats) {
+            Ok(e) => {
+                if e {
+                    engaged += 1;
+                }
+            }
+            Err(msg) => return (calls, engaged, Some(viol(&ops, &init, msg, "oracle"))),
+        }
+        t = nt;
+    }
+    (calls, engaged, None)
+}
